@@ -189,8 +189,10 @@ package kvgraph
 //@   option prelude=keys,kv
 //@   option load=kvindex,kvi,gripql
 //@   option globals=kvgraph
-//@   modifies KV.
+//@   modifies KV. SH.Str alloc H.kvindex.Doc. MapD.Str MapV.Str.Any MapN
+//@   ensures fresh: freshonly("SH.Str") && freshonly("MapD.Str") && freshonly("MapV.Str.Any") && freshonly("MapN") && freshonly("H.kvindex.Doc.Entries")
 //@   requires nonnil: tx != nil && idx != nil && vertex != nil
+//@   requires idxrep: idx.Fields != nil && (forall f:Str :: has(idx.Fields, f) ==> len(idx.Fields[f]) >= 1)
 //@   ensures rejected: !vertexValid(vertex) ==> result != nil && same(kvdom(), old(kvdom())) && same(kvvals(), old(kvvals()))
 //@   ensures acked: result == nil ==> kvhas(VertexKey(graph, vertex.Gid)) && kvval(VertexKey(graph, vertex.Gid)) == pmarshal(box(vertex))
 //@   ensures frame: forall k:Str :: k != VertexKey(graph, vertex.Gid) && !idxkey(k) ==> ((kvhas(k) <==> old(kvhas(k))) && kvval(k) == old(kvval(k)))
@@ -201,8 +203,10 @@ package kvgraph
 //@   option prelude=keys,kv
 //@   option load=kvindex,kvi,gripql
 //@   option globals=kvgraph
-//@   modifies KV.
+//@   modifies KV. SH.Str alloc H.kvindex.Doc. MapD.Str MapV.Str.Any MapN
+//@   ensures fresh: freshonly("SH.Str") && freshonly("MapD.Str") && freshonly("MapV.Str.Any") && freshonly("MapN") && freshonly("H.kvindex.Doc.Entries")
 //@   requires nonnil: tx != nil && idx != nil && edge != nil
+//@   requires idxrep: idx.Fields != nil && (forall f:Str :: has(idx.Fields, f) ==> len(idx.Fields[f]) >= 1)
 //@   let ek = EdgeKey(graph, edge.Gid, edge.From, edge.To, edge.Label, 1)
 //@   let sk = SrcEdgeKey(graph, edge.From, edge.To, edge.Gid, edge.Label, 1)
 //@   let dk = DstEdgeKey(graph, edge.From, edge.To, edge.Gid, edge.Label, 1)
@@ -246,8 +250,10 @@ package kvgraph
 //@   option prelude=keys,kv
 //@   option load=kvindex,kvi,timestamp,gdbi,gripql
 //@   option globals=kvgraph
-//@   modifies KV. TS.
+//@   modifies KV. TS. SH.Str alloc H.kvindex.Doc. MapD.Str MapV.Str.Any MapN H.gripql. H.multierror. Box.
 //@   requires nonnil: kgdb != nil && kgdb.kvg != nil && kgdb.kvg.kv != nil && kgdb.kvg.ts != nil && kgdb.kvg.idx != nil
+//@   requires idxrep: kgdb.kvg.idx.Fields != nil && (forall f:Str :: has(kgdb.kvg.idx.Fields, f) ==> len(kgdb.kvg.idx.Fields[f]) >= 1)
+//@   loop 101 invariant idxrep: kgdb.kvg.idx.Fields != nil && (forall f:Str :: has(kgdb.kvg.idx.Fields, f) ==> len(kgdb.kvg.idx.Fields[f]) >= 1)
 //@   requires elems: forall j :: 0 <= j && j < len(vertices) ==> vertices[j] != nil
 //@   loop 101 invariant frame: forall k:Str :: !idxkey(k) && !((kvhas(k) <==> old(kvhas(k))) && kvval(k) == old(kvval(k))) ==>
 //@       (exists j :: 0 <= j && j <= rangeindex && k == vkeyOf(kgdb.graph, vertices[j].ID))
@@ -266,8 +272,10 @@ package kvgraph
 //@   option prelude=keys,kv
 //@   option load=kvindex,kvi,timestamp,gdbi,gripql
 //@   option globals=kvgraph
-//@   modifies KV. TS.
+//@   modifies KV. TS. SH.Str alloc H.kvindex.Doc. MapD.Str MapV.Str.Any MapN H.gripql. H.multierror. Box.
 //@   requires nonnil: kgdb != nil && kgdb.kvg != nil && kgdb.kvg.kv != nil && kgdb.kvg.ts != nil && kgdb.kvg.idx != nil
+//@   requires idxrep: kgdb.kvg.idx.Fields != nil && (forall f:Str :: has(kgdb.kvg.idx.Fields, f) ==> len(kgdb.kvg.idx.Fields[f]) >= 1)
+//@   loop 101 invariant idxrep: kgdb.kvg.idx.Fields != nil && (forall f:Str :: has(kgdb.kvg.idx.Fields, f) ==> len(kgdb.kvg.idx.Fields[f]) >= 1)
 //@   requires elems: forall j :: 0 <= j && j < len(edges) ==> edges[j] != nil
 //@   loop 101 invariant frame: forall k:Str :: !idxkey(k) && !((kvhas(k) <==> old(kvhas(k))) && kvval(k) == old(kvval(k))) ==>
 //@       (exists j :: 0 <= j && j <= rangeindex && (k == ekeyOf(kgdb.graph, edges[j].ID, edges[j].From, edges[j].To, edges[j].Label, 1) ||
